@@ -64,6 +64,10 @@ Variable F : realFieldType.
 Definition psd (n : nat) (A : 'M[F]_n) : Prop :=
   forall x : 'cV[F]_n, 0 <= (x^T *m A *m x) 0 0.
 
+(** positive definite *)
+Definition pd (n : nat) (A : 'M[F]_n) : Prop :=
+  forall x : 'cV[F]_n, x != 0 -> 0 < (x^T *m A *m x) 0 0.
+
 (** Loewner order:  A <= B  iff  B - A is PSD *)
 Definition loewner_le (n : nat) (A B : 'M[F]_n) : Prop := psd (B - A).
 
